@@ -25,15 +25,4 @@ CONSTANTS
   WApp = 35
   WStore = 20
 INVARIANT EmitAtDepth
-INVARIANT Agreement
-INVARIANT EpochIsChainLength
-INVARIANT TreesValid
-INVARIANT PrivMatchesPub
-INVARIANT RecipientsEntitled
-INVARIANT NoDecapFailure
-INVARIANT PendingOnCurrentEpoch
-INVARIANT ProvidersAgree
-INVARIANT RetentionExact
-INVARIANT NoGenerationReuse
-INVARIANT AtMostOnce
 CHECK_DEADLOCK FALSE
